@@ -3,9 +3,9 @@ c13_probetest.run_probetest_part(chk, args)`): the NAT probe server, probetest/p
 
 spec/ProbeTest: probeHandler step by step (bounded read, DecodePollResponse, the `offer == ""` branch,
 DeserializeSessionDescription, the PeerConnection and the points where it must be closed), the timeout goroutine,
-the pion callback that closes dataChan, the remote peer and an explicit clock.  TLC checks the machine against
-the contract (ResponseIsContract, NoPanic, NoCrash, BoundedRead, ErrorPathClosesPC, OwnedPC, ClosedByDeadline,
-liveness) and prints every request class (method x body size at/over the limit/endless x JSON class x offer
+the pion callbacks that signal dataChan, the acknowledgement of an accepted data channel on its way to the peer, the
+remote peer and an explicit clock.  TLC checks the machine against the contract (ResponseIsContract, NoPanic,
+NoCrash, BoundedRead, ErrorPathClosesPC, OwnedPC, ClosedByDeadline, NoProbeLost, liveness) and prints every request class (method x body size at/over the limit/endless x JSON class x offer
 class x what the peer does) with the response and PeerConnection lifetime the contract demands.  An in-package
 driver (go test -overlay in /repo/probetest, package main) sends every class to the REAL handler - through
 net/http and directly - plays the proxy with a real pion peer, and watches the handler's PeerConnection from
@@ -156,10 +156,6 @@ def judge(c, o, summ):
         elif e["pc"] == "until-timeout" and o["closed_ms"] < tmo - 400:
             out.append(("ProbeTest/peer-connection-closed-early/%s" % k, "PeerConnection closed %d ms after the response although no data channel opened "
                         "(dataChannelTimeout = %d ms)" % (o["closed_ms"], tmo), False))
-        elif e["pc"] == "until-done" and o["closed_ms"] > tmo - 2000 and o.get("dc_open"):
-            # (if the harness peer's data channel never opened, the peer "never got there": LifeIsContract allows the timeout then)
-            out.append(("ProbeTest/peer-connection-not-closed-when-done/%s" % k, "the peer connected, saw its data channel open and closed its connection, yet the handler's "
-                        "PeerConnection was closed only %d ms after the response (at the timeout)" % o["closed_ms"], True))
         elif e["peer_open"] and not o.get("dc_open") and 0 <= o["closed_ms"] < tmo - 2000:
             out.append(("ProbeTest/probe-lost/server-closed-before-the-peer-saw-its-channel-open", "the peer completed the exchange and the handler closed its PeerConnection %d ms after the "
                         "response - but the peer's data channel never opened (its OnOpen needs the server's acknowledgement, and pc.Close() throws away what is not yet "
@@ -235,6 +231,7 @@ def run_probetest_part(chk, args, binary=None):
         found = collections.OrderedDict()
         njudged = nontriv = 0
         stats = collections.Counter()
+        late_cases = []
         skipped = None
         for j, (recs, r) in zip(jobs, results):
             if any("skip" in x for x in recs):
@@ -266,7 +263,12 @@ def run_probetest_part(chk, args, binary=None):
                 if c["expect"]["pc"] == "until-done" and o.get("closed_ms", -1) >= 0:
                     stats["connect"] += 1
                     stats["proxy_side_saw_open"] += 1 if o.get("dc_open") else 0
-                    stats["never_connected"] += 1 if (not o.get("dc_open") and o["closed_ms"] > c["expect"]["timeout_ms"] - 2000) else 0
+                    late = o["closed_ms"] > c["expect"]["timeout_ms"] - 2000
+                    stats["never_connected"] += 1 if (not o.get("dc_open") and late) else 0
+                    # the peer saw its channel open and closed its connection, the handler's PeerConnection lived on until the timeout
+                    stats["done_late"] += 1 if (o.get("dc_open") and late) else 0
+                    if o.get("dc_open") and late:
+                        late_cases.append(c)
                 if o.get("code") == 200 and c["offer"] == "app" and c["peer"] == "connect" and not o.get("panic"):
                     chk.sample({"module": "ProbeTest", "request": {k: c[k] for k in ("mode", "method", "size", "status", "offer", "peer")},
                                 "observed": {k: o[k] for k in ("code", "body", "read", "closed_ms", "dc_open")}}, limit=4)
@@ -292,13 +294,29 @@ def run_probetest_part(chk, args, binary=None):
                     chk.fail("%s was observed under load but not reproduced in an isolated re-run with a doubled window: no verdict" % sig)
                     continue
             chk.violation(sig, what, {"kind": "probetest", "case": c, "observed": o})
+        # until-done: the PeerConnection goes when the peer's close is noticed.  The teardown of a connection is best effort (under
+        # load a few closes are not noticed and the timeout takes over - allowed by the model: DCClosed has no fairness), so the
+        # clause is judged over all executions: most of them must end well before the timeout
+        opened = stats["proxy_side_saw_open"]
+        if opened >= 8 and stats["done_late"] * 2 > opened:
+            again = [dict(c, id=900000 + i) for i, c in enumerate((late_cases * 12)[:12])]
+            recs, r = run_proc(binary, again, 300, watch_ms=tmo + 20000, par=2)
+            obs = [x for x in recs if "id" in x and x.get("dc_open")]
+            late2 = [x for x in obs if x["closed_ms"] < 0 or x["closed_ms"] > tmo - 2000]
+            if len(obs) >= 6 and len(late2) * 2 > len(obs):
+                chk.violation("ProbeTest/peer-connection-not-closed-when-done", "in %d of %d executions (and again in %d of %d run alone) the peer connected, saw its data channel open and "
+                              "closed its connection, yet the handler's PeerConnection lived on until the timeout: the goroutine does not react to dataChan" % (
+                                  stats["done_late"], opened, len(late2), len(obs)), {"kind": "probetest", "case": late_cases[0], "observed": late2[0]})
+            else:
+                chk.fail("ProbeTest: %d of %d PeerConnections outlived a peer that was done, but not when re-run alone (%d of %d): no verdict" % (stats["done_late"], opened, len(late2), len(obs)))
         chk.cov["distinct_nontrivial"] += nontriv
         chk.cov["probetest"] = {"classes": len(cases), "executed": njudged, "peer_connections": npc,
                                 "connect_cases": stats["connect"], "proxy_side_saw_open": stats["proxy_side_saw_open"],
-                                "never_connected": stats["never_connected"]}
+                                "never_connected": stats["never_connected"], "close_not_noticed": stats["done_late"]}
         if stats["connect"]:
             chk.note("ProbeTest: %d judged; in %d executions of the connect classes the harness peer (the proxy's side) saw its data channel open %d times, "
-                     "%d never connected" % (njudged, stats["connect"], stats["proxy_side_saw_open"], stats["never_connected"]))
+                     "%d never connected; %d PeerConnections outlived a peer that was done (its close was not noticed: the timeout took over)" % (
+                         njudged, stats["connect"], stats["proxy_side_saw_open"], stats["never_connected"], stats["done_late"]))
         if skipped:
             chk.cov.setdefault("skipped_clauses", []).append("ProbeTest conformance: " + skipped)
             chk.note("ProbeTest: conformance runs skipped: " + skipped)
